@@ -387,7 +387,8 @@ def unit_length_key(g, depth, last, eop_ok):
     rng = g.rng
     kname = g.name("k")
     kd = uint_dop(rng, bitlen_choices=(8, 8, 16, 7, 12))
-    key = D.length_key(kname, kd, bitpos=rng.choice([None, None, 0, 1]) if kd.dct.bitlen < 8 else None)
+    # (bit positions that make the key cross a byte boundary included: the placeholder must reserve those bytes too)
+    key = D.length_key(kname, kd, bitpos=rng.choice([None, None, 0, 1, 3, 4, 7]))
     user = D.value(g.name(), gen_simple_dop(g, key_for_paramlen=kname))
     mid = []
     if rng.random() < 0.3:
